@@ -55,4 +55,7 @@ static Register r4("c04.n3s3pk4", "C04", "all dense members of TA(3,{a:0,f:1,g:2
 static Register r5("c04.n2s3k6", "C04", "all dense members of TA(2,{a:0,b:0,f:1,g:2},<=6) x 2 numberings x 2 orders", [](Env& e) { body(e, "c04.n2s3k6", 2, dom::Sigma3(), 6); });
 
 static Register r6("c04.n3s3pk5", "C04", "all dense members of TA(3,{a:0,f:1,g:2},<=5) x 6 numberings x 2 orders", [](Env& e) { body(e, "c04.n3s3pk5", 3, dom::Sigma3p(), 5); });
+static Register r7("c04.n2afhk3", "C04", "all dense members of TA(2,{a:0,f:1,h:3},<=3) x 2 numberings x 2 orders (ternary rules)", [](Env& e) { body(e, "c04.n2afhk3", 2, dom::SigmaAFH(), 3); });
+static Register r8("c04.n3ahk3", "C04", "all dense members of TA(3,{a:0,h:3},<=3) x 6 numberings x 2 orders", [](Env& e) { body(e, "c04.n3ahk3", 3, dom::SigmaAH(), 3); });
+static Register r9("c04.n2afhk4", "C04", "all dense members of TA(2,{a:0,f:1,h:3},<=4)", [](Env& e) { body(e, "c04.n2afhk4", 2, dom::SigmaAFH(), 4); });
 }  // namespace c04
